@@ -71,14 +71,7 @@ class Ctx:
         self.notes = {}
         self.known = [f for f in load_known() if f.get('property') == prop]
         self.vcount = 0
-        # replay files of earlier runs of this property are stale
-        if os.path.isdir(REPLAYS):
-            for fn in os.listdir(REPLAYS):
-                if fn.startswith(prop + '-'):
-                    try:
-                        os.remove(os.path.join(REPLAYS, fn))
-                    except OSError:
-                        pass
+        self.replay_file = None
 
     # ---- accounting -------------------------------------------------------------------------
     def add_mc(self, name, res):
@@ -114,6 +107,16 @@ class Ctx:
                 self.assumptions.append(t)
 
     # ---- violations -------------------------------------------------------------------------
+    def clear_stale_replays(self):
+        """replay files of earlier runs of this property are stale (not called in --replay mode)"""
+        if os.path.isdir(REPLAYS):
+            for fn in os.listdir(REPLAYS):
+                if fn.startswith(self.prop + '-'):
+                    try:
+                        os.remove(os.path.join(REPLAYS, fn))
+                    except OSError:
+                        pass
+
     def violation(self, signature, detail):
         """Report a divergence between code and spec. `signature` is the normalised identity used
         for matching known findings; `detail` is what goes into the replay file."""
@@ -176,6 +179,8 @@ def main_wrapper(prop, fn, argv=None):
     ctx = Ctx(prop, tier=args.tier, seed=seed)
     ctx.only = set(args.only.split(',')) if args.only else None
     ctx.replay_file = args.replay
+    if not args.replay:
+        ctx.clear_stale_replays()
     try:
         fn(ctx)
     except MachineryError as e:
